@@ -38,6 +38,26 @@ fn darklua_expression(code: &str) -> Result<Expression, String> {
     }
 }
 
+/// Trigger of the open finding F-C01-a, evaluated on the INPUT expression with the real evaluator: walking down the
+/// right spine of and/or nodes whose left operand has statically known truthiness selecting the right operand, a call
+/// or `...` is reached (compute_expression replaces the whole node by that multi-value expression).
+fn andor_multi_tail(ev: &Evaluator, e: &Expression) -> bool {
+    use darklua_core::nodes::BinaryOperator;
+    if let Expression::Binary(b) = e {
+        let selects_right = match (b.operator(), ev.evaluate(b.left()).is_truthy()) {
+            (BinaryOperator::And, Some(true)) | (BinaryOperator::Or, Some(false)) => true,
+            _ => false,
+        };
+        if selects_right {
+            return match b.right() {
+                Expression::Call(_) | Expression::VariableArguments(_) => true,
+                r => andor_multi_tail(ev, r),
+            };
+        }
+    }
+    false
+}
+
 fn value_json(v: &LuaValue) -> Value {
     let (vt, hi, lo, s) = match v {
         LuaValue::Nil => ("nil", 0, 0, String::new()),
@@ -224,6 +244,7 @@ pub fn main(args: &[String]) -> i32 {
         ans["multi"] = json!(multi as u8);
         ans["pse"] = json!(pse as u8);
         // evaluate / can_return_multiple_values do not depend on the metamethod assumption: recorded when they do
+        let tail = andor_multi_tail(&Evaluator::default(), &e);
         let pure_differs = value_json(&pvalue) != value_json(&value) || pmulti != multi;
         // ---- end to end through the rule
         let fold = match run_text(&code, "['compute_expression']", "'retain_lines'") {
@@ -280,7 +301,7 @@ pub fn main(args: &[String]) -> i32 {
             "ans": ans, "fold": fold_stmt,
         }));
         status.emit(&json!({"id": id, "expr": expr, "status": "ok", "ans": ans, "fold": fold_stmt, "same": same as u8,
-                            "nrho": rl.len(), "nrho_total": total, "pure_differs": pure_differs as u8}));
+                            "nrho": rl.len(), "nrho_total": total, "andor_multi_tail": tail as u8, "nx": nx, "va": uv as u8, "pure_differs": pure_differs as u8}));
     }
     out.flush();
     status.flush();
